@@ -2,7 +2,7 @@
 # usage: tools_seed_save.sh <property-id> <worktree> <name> <caught-by text>
 ID=$1; WT=$2; NAME=$3; CAUGHT=$4
 D=/verif/seeded/$NAME; mkdir -p $D
-git -C $WT diff -- mako > $D/patch.diff
+if [ -s $WT/seed/patch.diff ]; then cp $WT/seed/patch.diff $D/patch.diff; else git -C $WT diff -- mako > $D/patch.diff; fi
 cp $WT/seed/demo.py $D/demo.py 2>/dev/null
 python3 - "$WT/seed/meta.json" "$D/meta.json" "$ID" "$CAUGHT" <<'PY'
 import json,sys
